@@ -19,6 +19,7 @@ func init() {
 		Quick: []ruleDef{
 			{"LOAD-FILTER", 6, ruleLoadFilter},
 			{"LOAD-IMPORTALL", 2, ruleLoadImportAll},
+			{"PAR-INITNAME", 1, ruleParInitName},
 			{"LOAD-KAHN", 6, ruleLoadKahn},
 			{"LOAD-CYCLE", 1, ruleLoadCycle},
 			{"LOAD-SORT", 3, ruleLoadSort},
@@ -2604,4 +2605,101 @@ func ruleApiErrChain(c *Ctx, r *R) {
 	}
 	r.check(kept, "raised error stays in the chain", where, "btErr's result unwraps to the error a callback raised",
 		"btErr formats the recovered value into a new error text and drops the value: when a native callback raises a Go error (panic(errQuota), as slices.SortFunc does with the error of its nested call), errors.Is / errors.As on the error Call, Func or Load returns cannot find it — only its text surfaces")
+}
+
+// PAR-INITNAME: only a plain function named init is a package initialiser.  `func (g *Game)
+// init()` is a method like any other (Go allows it): funcNud turns a declaration into an
+// "init" node only on the branch that parsed no receiver — inside the else-part of the
+// receiver test, or under a test that the receiver variable is nil.
+func ruleParInitName(c *Ctx, r *R) {
+	fd := c.Func("funcNud")
+	if fd == nil {
+		r.undecided("funcNud", "-", "not found")
+		return
+	}
+	// the receiver test: if p.Token.Symbol == "(" at declaration level
+	var recvIf *ast.IfStmt
+	ast.Inspect(fd.Body, func(n ast.Node) bool {
+		ifs, ok := n.(*ast.IfStmt)
+		if !ok || recvIf != nil {
+			return true
+		}
+		be, ok := unparen(ifs.Cond).(*ast.BinaryExpr)
+		if !ok || be.Op != token.EQL {
+			return true
+		}
+		if v, ok := c.ConstString(be.Y); ok && v == "(" && strings.HasSuffix(nosp(c.Src(be.X)), ".Token.Symbol") {
+			recvIf = ifs
+		}
+		return true
+	})
+	if recvIf == nil {
+		r.undecided("receiver test", c.Pos(fd), "no `p.Token.Symbol == \"(\"` test found in funcNud")
+		return
+	}
+	recvVars := map[types.Object]bool{}
+	ast.Inspect(recvIf.Body, func(n ast.Node) bool {
+		if as, ok := n.(*ast.AssignStmt); ok {
+			for _, l := range as.Lhs {
+				if id, ok := l.(*ast.Ident); ok && id.Name != "_" {
+					if o := c.Obj(id); o != nil {
+						recvVars[o] = true
+					}
+				}
+			}
+		}
+		return true
+	})
+	n := 0
+	ast.Inspect(fd.Body, func(m ast.Node) bool {
+		call, ok := m.(*ast.CallExpr)
+		if !ok {
+			return true
+		}
+		mk := false
+		switch c.CalleeName(call) {
+		case "symAtPos":
+			if len(call.Args) == 2 {
+				if v, ok := c.ConstString(call.Args[1]); ok && v == "init" {
+					mk = true
+				}
+			}
+		case "token.rename":
+			if len(call.Args) == 1 {
+				if v, ok := c.ConstString(call.Args[0]); ok && v == "init" {
+					mk = true
+				}
+			}
+		}
+		if !mk {
+			return true
+		}
+		n++
+		good := false
+		var child ast.Node = call
+		for p := c.Parent(call); p != nil && p != ast.Node(fd); child, p = p, c.Parent(p) {
+			ifs, ok := p.(*ast.IfStmt)
+			if !ok {
+				continue
+			}
+			if ifs == recvIf && ifs.Else != nil && child == ast.Node(ifs.Else) {
+				good = true
+			}
+			if ifs.Body == child {
+				for _, cj := range conjuncts(ifs.Cond) {
+					if be, ok := unparen(cj).(*ast.BinaryExpr); ok && be.Op == token.EQL && isIdent(be.Y, "nil") {
+						if id, ok := unparen(be.X).(*ast.Ident); ok && recvVars[c.Obj(id)] {
+							good = true
+						}
+					}
+				}
+			}
+		}
+		r.check(good, "init is a plain function", c.Pos(call), "the init node is made only where no receiver was parsed",
+			"funcNud makes a package initialiser of every declaration named init, methods included: `func (g *Game) init()` is run (without a receiver) while the package loads — the load fails with CALL: incorrect args — and the method is never registered on its type")
+		return true
+	})
+	if n == 0 {
+		r.undecided("init node", c.Pos(fd), "funcNud does not make an init node")
+	}
 }
